@@ -128,6 +128,22 @@ class C16(Check):
                 continue
             for t in rng.sample(sites, min(len(sites), rng.randint(1, 4))):
                 t[2] = {"p": rr}
+            root = ws["roots"][0]
+            rn = root["name"]
+            if rng.random() < 0.35 and not ({(rn + ".Empty").lower(), (rn + ".EmptyHost").lower()} & {d["name"].lower() for d in root["defs"]}):
+                # zero-size elements: a sealed composite without fields (or with constants only) as the element of parameterised
+                # arrays - every repetition of its length set stays {0}, which must cost nothing however large the capacity is
+                root["defs"].append({"name": rn + ".Empty", "ver": [1, 0], "port": None, "ext": "dsdl", "dep": False,
+                                     "secs": [{"union": False, "hdr": None, "items": ([["c", ["u", 8, "s"], "K", "1", [1, 1]]] if rng.random() < 0.5 else []), "seal": "sealed"}]})
+                eref = ["ref", rn + ".Empty", 1, 0]
+                items = [["f", ["var", eref, {"p": rr}], "ev"]]
+                if rng.random() < 0.6:
+                    items.append(["f", ["arr", eref, {"p": rr}], "ea"])
+                if rng.random() < 0.5:
+                    items.insert(0, ["f", ["u", rng.choice([3, 8]), "s"], "pre"])
+                items.append(["f", ["u", 8, "s"], "tail"])
+                root["defs"].append({"name": rn + ".EmptyHost", "ver": [1, 0], "port": None, "ext": "dsdl", "dep": False,
+                                     "secs": [{"union": rng.random() < 0.3, "hdr": None, "items": items, "seal": rng.choice(["sealed", {"slack": 2}])}]})
             for d in ws["roots"][0]["defs"]:
                 for s in d["secs"]:
                     if isinstance(s.get("seal"), int) and not isinstance(s.get("seal"), bool):
